@@ -491,6 +491,13 @@ def judge(part, ref, nxt, boxes, subs, case):
                 if sa is not None and sb is not None:
                     part.violation('monitor', f'crash at operation {k}: acknowledged message uid {uid} (content {sa[0]}) of {box} is not served after the restart; served {sorted(got.items())}',
                                    case, signature='message-lost')
+                elif sa is not None:
+                    # the command in flight (MOVE, EXPUNGE) may have taken the message away, but it may not have left it in its
+                    # mailbox under another number: same mailbox, same UIDVALIDITY, same message => same UID
+                    again = [u2 for u2, g2 in got.items() if u2 not in a and u2 not in b and g2[0] == sa[0]]
+                    if again:
+                        part.violation('monitor', f'crash at operation {k}: acknowledged message uid {uid} (content {sa[0]}) of {box} is served after the restart under uid {again[0]} '
+                                       f'of the same mailbox instead', case, signature='message-renumbered')
                 continue
             if g[0] != (sa or sb)[0]:
                 part.violation('monitor', f'crash at operation {k}: uid {uid} of {box} was acknowledged for content {(sa or sb)[0]} and now denotes content {g[0]}', case,
